@@ -44,6 +44,7 @@ def stub_async(W, fullname, label, outcomes, needs=None):
             aio.suspend(it2, ("call", label))
             k = W.w.nondet(len(outcomes), f"{label} outcome")
             out = outcomes[k]
+            W.w.event("outcome", label, out if (out is None or isinstance(out, str)) else "callable")
             if out is None:
                 return None
             if callable(out):
@@ -170,8 +171,7 @@ def _drain_iteration(h, first):
         q = sock.attrs["_message_queue"]
         if state["iterations"] == 0:
             state["iterations"] = 1
-            if not first:
-                pass
+            state["t_iter"] = aio.now(it)  # the loop time at which this iteration pops its entry
             # the loop test must be true: queue is non-empty by construction
             if not it.test(it.eval(node.test, env)):
                 raise PathEnd()
@@ -198,11 +198,14 @@ def _drain_iteration(h, first):
         orig_hook = loop_hook
 
         def loop_hook2(it, node, env):
-            W.set_state(tag="resumed")
+            if state["iterations"] == 0:
+                W.set_state(tag="resumed")
+                # earlier iterations suspended in _write: any amount of time has passed since the drain started
+                aio.advance_clock(it, at_least=0)
             return orig_hook(it, node, env)
         h.it.loop_hooks[(F_DRAIN, 0)] = loop_hook2
         r = h.method(sock, "_drain_message_queue")
-    return W, sock, e, rest, log, r, now0
+    return W, sock, e, rest, log, r, state.get("t_iter", now0)
 
 
 def _drain_obligations(h, W, sock, e, rest, log, r, now0, first):
@@ -225,8 +228,12 @@ def _drain_obligations(h, W, sock, e, rest, log, r, now0, first):
              writer_at_call is not None)
     q = W.queue_items()
     resets = calls(W, "reset_connection")
-    # what happened in _write is visible through the queue / reset effects
-    if len(resets) == 0:
+    outcome = [x[2] for x in W.w.events("outcome") if x[1] == "_write"]
+    transport_error = bool(outcome) and outcome[0] in ("OSError", "ConnectionResetError")
+    h.oblige("the connection is reset if and only if the write met a transport error - whatever retries the entry has left "
+             "(a half-open link is never kept, and an encoding error or a good write never costs the link)",
+             len(resets) == (1 if transport_error else 0))
+    if not transport_error:
         h.oblige("without a transport error nothing is re-queued", all(x is not None and (x is rest or x is e) for x in q) and (len(q) == 0 or q[0] is not e))
     else:
         h.oblige("a transport error resets the connection exactly once", len(resets) == 1)
